@@ -18,7 +18,7 @@ for it, ob in zip(res["sessions"]["iters"], res["iters"]):
     print("    next", ob["next"], "exc", (ob["exc"] or "")[-300:])
     if "-v" in exprs:
         print("    local", ob["localdata"]); print("    lcomplete", ob["localdata_complete"]); print("    remote", ob["remotedata"]); print("    rcomplete", ob["remotedata_complete"])
-body = "From Hermes Require Import Corr.RunClient.\nDefinition x : ccase := " + g + ".\nEval vm_compute in (corr_detail x).\n" + "".join(f"Eval vm_compute in ({e}).\n" for e in exprs if e != "-v")
+body = "From Hermes Require Import Corr.RunC10.\nDefinition x : ccase := " + g + ".\nEval vm_compute in (corr_detail x).\n" + "".join(f"Eval vm_compute in ({e}).\n" for e in exprs if e != "-v")
 p = common.workdir("dbg") + "/cli1.v"
 open(p, "w").write(body)
 print(common.run_coqc(p))
